@@ -138,7 +138,7 @@ var stratumValues = []int64{0, 16, 15, 1, 255, 17, 128, 2}
 func genRecipe(r *lib.Rng, nts bool) recipe {
 	kinds := []int{1, 2, 2, 3, 3, 4, 4, 5, 5, 5, 6, 6, 7, 8, 9, 21}
 	if nts {
-		kinds = append(kinds, 10, 11, 11, 11, 12, 12, 13, 13, 13, 14, 15, 16, 16, 17, 18, 19, 19, 20)
+		kinds = append(kinds, 10, 11, 11, 11, 12, 12, 13, 13, 13, 14, 15, 16, 16, 17, 18, 19, 19, 20, 22, 22, 23, 23, 24)
 	}
 	k := kinds[r.Intn(len(kinds))]
 	rc := recipe{kind: k, p2: int64(r.Intn(1 << 16))}
@@ -177,8 +177,10 @@ func genRecipe(r *lib.Rng, nts bool) recipe {
 		rc.p1 = int64(r.Intn(3))
 	case 18:
 		rc.p1 = lib.Pick(r, int64(15), 17, 0, 12, 32)
-	case 20:
+	case 20, 22:
 		rc.p1 = int64(r.Intn(3))
+	case 23:
+		rc.p1 = int64(r.Intn(4))
 	}
 	return rc
 }
@@ -264,6 +266,7 @@ type callObs struct {
 	events []xevent
 	err    error
 	off    time.Duration
+	pool   [][]byte // the fetcher's cookie pool after the call (NTS)
 }
 
 var (
@@ -354,9 +357,20 @@ func (w *worker) runHist(h histSpec) {
 		rec.mu.Lock()
 		co.events = append([]xevent(nil), rec.events...)
 		rec.mu.Unlock()
+		if h.nts {
+			co.pool = c.Auth.NTSKEFetcher.VerifData().Cookie
+		}
 		calls = append(calls, co)
 	}
 	w.emit(h, calls, "ip.hist")
+}
+
+func bl(bs [][]byte) string {
+	items := make([]string, len(bs))
+	for i, b := range bs {
+		items[i] = lib.B(b)
+	}
+	return lib.L(items...)
 }
 
 func t64s(t ntp.Time64) string { return lib.V(lib.U(uint64(t.Seconds)), lib.U(uint64(t.Fraction))) }
@@ -440,7 +454,10 @@ func (w *worker) emit(h histSpec, calls []*callObs, kind string) {
 					front = d.front
 				}
 				evs = append(evs, lib.L("0", "1", "0", front, lib.B(d.payload), lib.I(crx.UnixNano()),
-					lib.Bool(d.fromServer), lib.Bool(d.uidOK), lib.Bool(d.authOK)))
+					lib.Bool(d.fromServer), lib.Bool(d.uidOK), lib.Bool(d.authOK), bl(d.cookies)))
+				if len(d.cookies) > 1 {
+					tags["cookies>1"] = true
+				}
 				if d.entry != nil {
 					e := d.entry
 					table = append(table, lib.L(lib.B(e.key), lib.B(e.nonce), lib.B(e.ad), lib.B(e.ct), lib.Bool(e.ok), lib.B(e.pt)))
@@ -464,7 +481,10 @@ func (w *worker) emit(h histSpec, calls []*callObs, kind string) {
 			if !h.nts {
 				s2c = nil
 			}
-			env := lib.L(lib.I(ref.UnixNano()), lib.I(ctx1.UnixNano()), lib.B(uid), lib.B(s2c), "0", lib.Bool(ireq))
+			env := lib.L(lib.I(ref.UnixNano()), lib.I(ctx1.UnixNano()), lib.B(uid), lib.B(s2c), "0", lib.Bool(ireq), bl(rq.ke))
+			if rq.ke != nil {
+				tags["keyexchange"] = true
+			}
 			xs = append(xs, lib.L(env, lib.L(evs...), recipeVals(rq.recipes, rq.timeout)))
 			wire := lib.L(t64s(rq.org), t64s(rq.rx), t64s(rq.tx))
 			switch {
@@ -498,7 +518,7 @@ func (w *worker) emit(h histSpec, calls []*callObs, kind string) {
 		if co.err == nil {
 			off = int64(co.off)
 		}
-		outs = append(outs, lib.L(lib.I(errClassT(co.err, scion)), lib.I(off), lib.L(xos...)))
+		outs = append(outs, lib.L(lib.I(errClassT(co.err, scion)), lib.I(off), lib.L(xos...), bl(co.pool)))
 	}
 	var tl []string
 	cfg := lib.L("0", lib.Bool(h.imode), lib.Bool(h.nts), lib.Bool(h.deadline), lib.I(addrNum(w.addrA)), "0", "0", lib.I(addrNum(w.addrA)))
